@@ -505,6 +505,12 @@ package goldilocks
 //@   loop 0 invariant 0 <= i && i <= 32 - nLog && 0 < res && res < P && res == gl_sq_iter0(1753635133440165772, i)
 //@   loop 0 use gl_square_nonzero(res)
 
+//@ func Uint64ArrayToQuadraticExtensionArray(input [][]uint64) (res []QuadraticExtensionVariable)
+//@   props C19
+//@   plain
+//@   ensures len(res) == len(input) && forall(k, 0, len(input), len(input[k]) >= 2 && res[k][0].Limb == input[k][0] && res[k][1].Limb == input[k][1])
+//@   loop 0 invariant 0 <= i && i <= len(input) && len(output) == i && forall(k, 0, i, len(input[k]) >= 2 && output[k][0].Limb == input[k][0] && output[k][1].Limb == input[k][1])
+
 //@ func Uint64ArrayToVariableArray(input []uint64) (res []Variable)
 //@   props C19 C16
 //@   plain
